@@ -3,7 +3,7 @@
    statement was false ([flags] text); with the repairs mirrored in the model the former witnesses are fixed points after one
    pass.  No general proof exists.  Proved: the instances, and that the second pass never panics either. *)
 Require Import Bebop.front.Tok Bebop.front.Parse Bebop.front.Fmt Bebop.front.FmtFacts Bebop.front.FmtSafe.
-Require Import Bebop.front.LexInv Bebop.front.ParseInv Bebop.front.FmtInv.
+Require Import Bebop.front.LexInv Bebop.front.ParseInv Bebop.front.FmtInv Bebop.front.MsgInv.
 From Coq Require Import List.
 
 Definition C17_partial_statement : Prop :=
@@ -30,3 +30,16 @@ Proof.
   exists y. auto.
 Qed.
 Print Assumptions C17_structs.
+
+(* and with messages (front/MsgInv.v): any sequence of struct and message definitions, indices any decimal literal denoting
+   1 .. 255 and distinct within a message, every layout *)
+Definition C17_records_statement : Prop :=
+  forall dl l tail,
+    Forall defn_ok dl -> map snd l = defs_lex dl -> Forall (fun p => hws (fst p)) l -> sep_ok l -> hws tail ->
+    exists y, (exists s, format (render l tail) = POk y s) /\ y = dctext (map bdn dl) /\ (exists s, format y = POk y s).
+Theorem C17_records : C17_records_statement.
+Proof.
+  intros dl l tail H1 H2 H3 H4 H5. destruct (defs_format_laws dl l tail H1 H2 H3 H4 H5) as (y & Hf & Hy & Hi & _).
+  exists y. auto.
+Qed.
+Print Assumptions C17_records.
